@@ -59,12 +59,18 @@ CHECKS = {
                      "the hook asserts that no server db connection is inside a transaction and that an independent read-only connection already sees "
                      "what the frame acknowledges (allocated/claimed/released/closed/message); every 7th acknowledging frame the files and hot journals "
                      "are copied at that instant, re-opened with plain sqlite3 (real recovery) and judged by the same oracle; PRAGMA synchronous=FULL and "
-                     "journal_mode=DELETE are read from the server's connections after every (re)start.",
+                     "journal_mode=DELETE are read from the server's connections after every (re)start. "
+                     "Wire/syscall tier (32 histories quick, 600 thorough): the unmodified service as a real process on the real disk, driven over TCP by a raw "
+                     "WebSocket client under strace -f -yy; an offline checker replays the log: no TCP write while a journal file is live, database fdatasync "
+                     "before every journal unlink, journal synced before the first database write; the frames the real client received must equal the "
+                     "in-process recording (harness fidelity, a mismatch is inconclusive, never a violation).",
                 nontrivial_rule="a history counts if an acknowledging frame was judged at emission; distinct by history hash.",
                 level_text="Fault enumeration by runtime monitoring: one crash point per outbound frame of every executed history, decided by an oracle "
                            "running inside the send hook of the real server; sampled crash images confirm the reader-based verdicts on real file bytes.",
-                floors={"quick": {"c09_no_txn_at_frame": 100000, "c09_emit_message": 1000, "c09_emit_claimed": 1000, "c09_emit_released": 500,
-                                  "c09_emit_closed": 500, "c09_emit_allocated": 200, "c09_crash_image_checked": 1000, "c09_pragmas": 2000}}),
+                budget={"quick": 75, "thorough": 900},
+                floors={"quick": {"c09_no_txn_at_frame": 60000, "c09_emit_message": 1000, "c09_emit_claimed": 1000, "c09_emit_released": 500,
+                                  "c09_emit_closed": 500, "c09_emit_allocated": 200, "c09_crash_image_checked": 1000, "c09_pragmas": 2000,
+                                  "c09_wire_history": 16, "c09_syscall_tcp_writes_checked": 2000, "c09_syscall_commits_checked": 500}}),
     "C13": dict(module="mon.checks.c13", level="exploration",
                 rule="General random histories (3 apps, 4 sides, reopen-after-close, crowding, protocol errors, restarts) followed by all clients leaving and "
                      "expiry + 2 periods of virtual time through the real TimerService: per-sweep must-be-gone oracle, store-empty oracle, sweeps-per-lifetime "
